@@ -663,6 +663,10 @@ def check(ctx, rep):
 
     # findings reach a file only under the very path the directory walk yields for it
     rule_location_file_verbatim(ctx, rep)
+    from .c09 import rule_fresh_visitor
+
+    # a reported site is skipped when a helper visitor still holds what it gathered for an earlier site
+    rule_fresh_visitor(ctx, rep)
     rep.not_covered += [
         "agreement of semgrep positions with libcst positions for all spellings (line/column matching)",
         "semgrep's matching semantics in general (metavariable unification, taint propagation)",
